@@ -35,6 +35,37 @@ def clear_caches(c, seen=None):
         clear_caches(s, seen)
 
 
+class UncachedBudget(BaseException):
+    """Without memoisation nested quantifiers over recursive symbols can take exponentially many sub-evaluations."""
+
+
+class NoStore(dict):
+    """A constraint memo that never remembers anything: every lookup misses.  Lookups are counted (one per
+    sub-evaluation) so that an unmemoised evaluation can be abandoned after a logical budget."""
+    lookups = 0
+    budget = 4000
+
+    def __setitem__(self, k, v):
+        pass
+
+    def __contains__(self, k):
+        NoStore.lookups += 1
+        if NoStore.lookups > NoStore.budget:
+            raise UncachedBudget()
+        return False
+
+
+def disable_caches(c, seen=None):
+    seen = seen if seen is not None else set()
+    if id(c) in seen:
+        return
+    seen.add(id(c))
+    if hasattr(c, "cache") and isinstance(c.cache, dict):
+        c.cache = NoStore()
+    for s in _subconstraints(c):
+        disable_caches(s, seen)
+
+
 def failing_signature(failing_trees):
     sig = []
     for ft in failing_trees:
@@ -51,10 +82,28 @@ def failing_signature(failing_trees):
     return sorted(map(repr, sig))
 
 
+DETACHED = repr(("?",))
+
+
+def comparable(sig_a, sig_b):
+    """Failing parts are compared as (path, symbol, cause).  fandango's memos hand out the failing NODES of whichever
+    structurally equal tree was evaluated first; such a node has the same path in its own tree unless that tree has
+    been edited in place since (then it is detached and has no path at all).  When either side names a detached node,
+    both sides are compared without paths."""
+    if any(DETACHED in x for x in sig_a) or any(DETACHED in x for x in sig_b):
+        strip = lambda sig: sorted(repr(eval(x)[1:]) for x in sig)
+        return strip(sig_a), strip(sig_b)
+    return sig_a, sig_b
+
+
 def begin_run(spec_builder, every=1):
     """spec_builder() -> (grammar, constraints) freshly parsed from the same text as the observed run"""
     g, cons = spec_builder()
-    STATE.update(shadow_constraints=cons, grammar=g, every=every, n=0, enabled=True, done=0, cap=300)
+    g2, cons2 = spec_builder()
+    for con in cons2:
+        disable_caches(con)
+    STATE.update(shadow_constraints=cons, grammar=g, every=every, n=0, enabled=True, done=0, cap=300,
+                 uncached_constraints=cons2, uncached_grammar=g2)
     MISMATCHES.clear()
 
 
@@ -71,7 +120,8 @@ def install():
 
     def mk(orig):
         def evaluate_individual(self, individual):
-            if type(self) is not Evaluator or not STATE["enabled"]:
+            # the shadow evaluators' own evaluations are not shadowed again
+            if type(self) is not Evaluator or not STATE["enabled"] or STATE.get("in_shadow"):
                 return (yield from orig(self, individual))
             key_before = hash((individual.get_root(), individual))
             cached = key_before in self._fitness_cache
@@ -87,6 +137,7 @@ def install():
             if cached:
                 hooks.count("shadow_compared_cache_hit")
             st = random.getstate()
+            STATE["in_shadow"] = True
             try:
                 cp = copy.deepcopy(individual)
                 for con in STATE["shadow_constraints"]:
@@ -99,8 +150,37 @@ def install():
                         next(gen)
                 except StopIteration as s:
                     fresh = s.value
-                a = (ret[0], failing_signature(ret[1]))
-                b = (fresh[0], failing_signature(fresh[1]))
+                sa, sb = comparable(failing_signature(ret[1]), failing_signature(fresh[1]))
+                a = (ret[0], sa)
+                b = (fresh[0], sb)
+                # third evaluation: constraint objects whose memo never stores, so that not even results cached
+                # earlier in the SAME evaluation (inner constraints under other bindings) can be served
+                ev2 = Evaluator(STATE["uncached_grammar"], STATE["uncached_constraints"], self._expected_fitness,
+                                self._diversity_k, self._diversity_weight)
+                gen = ev2.evaluate_individual(copy.deepcopy(individual))
+                NoStore.lookups = 0
+                unc = None
+                try:
+                    while True:
+                        next(gen)
+                except StopIteration as s:
+                    unc = s.value
+                except UncachedBudget:
+                    hooks.count("shadow_uncached_abandoned_budget")
+                if unc is not None:
+                    hooks.count("shadow_compared_uncached")
+                c_ = (unc[0], failing_signature(unc[1])) if unc is not None else None
+                # compared: fitness and verdict only. Which of several structurally equal subtrees is named as the failing
+                # part may legitimately differ (bindings to equal subtrees share a memo entry; a brand-new evaluation
+                # does the same), the property's reference is the brand-new evaluation above
+                if c_ is not None and a == b and c_[0] != b[0]:
+                    from vf.trees import pretty
+
+                    what = [f"evaluation with memoisation switched off gives fitness {c_[0]!r}, with (empty, then filling) memos {b[0]!r}"]
+                    if (c_[0] >= self._expected_fitness) != (b[0] >= self._expected_fitness):
+                        what.append("VERDICT differs")
+                    if len(MISMATCHES) < 20:
+                        MISMATCHES.append({"what": "; ".join(what), "tree": pretty(individual)[:300], "cache_hit": cached, "uncached": True})
                 if a != b:
                     from vf.trees import pretty
 
@@ -118,6 +198,7 @@ def install():
             except Exception as e:  # the shadow must never disturb the observed run
                 hooks.count("shadow_failed:" + type(e).__name__)
             finally:
+                STATE["in_shadow"] = False
                 random.setstate(st)
             return ret
         return evaluate_individual
